@@ -212,6 +212,9 @@ var checks = map[string]*check{
 		Parts: []part{
 			{Name: "sizes", Kind: "explore", Scen: "stdio_sync", BatchN: 60, Depths: depths([]int{0}, []int{0}), Budget: budget(3*time.Minute, 30*time.Minute)},
 			{Name: "schedules", Kind: "explore", Scen: "stdio_sync", Inst: inst("sched", "sched"), Depths: depths([]int{2}, []int{2, 3}), Budget: budget(3*time.Minute, 20*time.Minute)},
+			// the real plugin.Serve (os.Stdout / os.Stderr swap, pipes, copy loops) in a real child whose garbage collector
+			// has run, against the real Client: byte-exact comparison per stream
+			{Name: "real-serve", Kind: "enum", Bin: "e3.test", Test: "TestC11Proc"},
 			{Name: "conformance", Kind: "conform", Scen: "stdio_sync"},
 		},
 	},
